@@ -72,13 +72,26 @@ func New(filename string, src io.Reader, n int) (*Input, error) {
 	return in, nil
 }
 
-// loadFirst reads the input and loads the first sub-buffer.
-func (i *Input) loadFirst() error {
-	high := len(i.buff) / 2
+// load reads the input and loads the sub-buffer buff[low:high].
+//
+// A single Read may return fewer bytes than requested, or return the last bytes together with io.EOF.
+// So, it keeps reading until the sub-buffer is full or the input ends, and never drops the bytes read.
+// If the input ends before the sub-buffer is full, the eof sentinel is placed after the last byte.
+func (i *Input) load(low, high int) error {
+	n := low
 
-	n, err := i.src.Read(i.buff[:high])
-	if err != nil {
-		return err
+	for n < high {
+		m, err := i.src.Read(i.buff[n:high])
+		n += m
+
+		// The bytes read so far are consumed first; the end of input is found again afterwards.
+		if err == io.EOF && n > low {
+			break
+		}
+
+		if err != nil {
+			return err
+		}
 	}
 
 	if n < high {
@@ -88,20 +101,14 @@ func (i *Input) loadFirst() error {
 	return nil
 }
 
+// loadFirst reads the input and loads the first sub-buffer.
+func (i *Input) loadFirst() error {
+	return i.load(0, len(i.buff)/2)
+}
+
 // loadSecond reads the input and loads the second sub-buffer.
 func (i *Input) loadSecond() error {
-	low, high := len(i.buff)/2, len(i.buff)
-
-	n, err := i.src.Read(i.buff[low:high])
-	if err != nil {
-		return err
-	}
-
-	if n < high-low {
-		i.buff[low+n] = eof
-	}
-
-	return nil
+	return i.load(len(i.buff)/2, len(i.buff))
 }
 
 // next returns the current byte at the forward pointer and advances the forward pointer to the next byte.
